@@ -1678,7 +1678,7 @@ def spine(nf):
         if cur[0] == "ifelse" and isinstance(cur[2], tuple) and isinstance(cur[3], tuple):
             lit_then = not [r for r in nf_roots(cur[2]) if r[0] != "lit"]
             lit_else = not [r for r in nf_roots(cur[3]) if r[0] != "lit"]
-            if lit_then != lit_else:
+            if lit_then != lit_else and is_value_guard(cur):
                 if "'Self'" in nf_str(cur[1]):
                     out.append("<self-guard>")
                 cur = cur[3] if lit_then else cur[2]
@@ -1803,6 +1803,24 @@ def ctx_feasible(ctx):
     return True
 
 
+def is_value_guard(e):
+    """`if x == "lit" { "other" } else { x }` (or with the branches swapped): a value with one spelling replaced, not a choice
+    between two templates. The condition compares the very value that the non-literal branch yields with a literal."""
+    cond, a, b = e[1], e[2], e[3]
+    la, lb = _literal_only(a), _literal_only(b)
+    if la == lb:
+        return False
+    val = b if la else a
+    c = cond
+    while isinstance(c, tuple) and c[0] == "not":
+        c = c[1]
+    if not (isinstance(c, tuple) and c[0] == "binop" and c[1] in ("Eq", "Ne")):
+        return False
+    sides = [c[2], c[3]]
+    strip = lambda n: n[2][0] if isinstance(n, tuple) and n[0] == "call" and str(n[1]).rsplit("::", 1)[-1] in ("as_str", "as_ref", "deref", "to_string") and len(n[2]) == 1 else n
+    return any(strip(x) == strip(val) for x in sides) and any(isinstance(x, tuple) and x[0] == "lit" for x in sides)
+
+
 def canon_parts(parts, CE, limit=24):
     """Canonical form of a template: Display holes whose value is itself a text template are spliced into the template
     (`format!`, string literals) and holes that choose between templates (`if`/`if let`/two-armed option `match`, after expanding
@@ -1858,7 +1876,7 @@ def _canon_hole(p, CE, limit):
             if not wild:
                 failed = failed + (("alt", ("islet", lab, e[1]), False),)
         return out[:limit]
-    if k == "ifelse" and isinstance(e[2], tuple) and isinstance(e[3], tuple) and _literal_only(e[2]) == _literal_only(e[3]):
+    if k == "ifelse" and isinstance(e[2], tuple) and isinstance(e[3], tuple) and not is_value_guard(e):
         a = _canon_hole(("hole", e[2], tr, ty), CE, limit)
         b = _canon_hole(("hole", e[3], tr, ty), CE, limit)
         return [(sp, (("alt", e[1], True),) + sc) for sp, sc in a] + [(sp, (("alt", e[1], False),) + sc) for sp, sc in b]
